@@ -153,18 +153,17 @@ def _mutants(pid):
     return out
 
 
-def strength_audit(pid):
-    muts = _mutants(pid)
+def audit_one(pid, name, patch, origin):
+    """Applies one recorded change to a scratch copy of the working tree and runs the quick check of `pid` against it."""
     details = []
-    for name, patch, origin in muts:
+    if True:
         scratch = tempfile.mkdtemp(prefix="verif-audit-")
         try:
             subprocess.run(["rsync", "-a", "--exclude", "target", "--exclude", ".git", REPO + "/", scratch + "/repo/"], check=True)
             ap = subprocess.run(["patch", "-p1", "-s", "--no-backup-if-mismatch", "-i", patch], cwd=scratch + "/repo",
                                 stdout=subprocess.PIPE, stderr=subprocess.STDOUT, text=True)
             if ap.returncode != 0:
-                details.append({"mutant": name, "origin": origin, "result": "patch does not apply to the current tree", "detected": None})
-                continue
+                return {"mutant": name, "origin": origin, "result": "patch does not apply to the current tree", "detected": None}
             env = dict(os.environ, VERIF_REPO=scratch + "/repo", VERIF_EVIDENCE_DIR=scratch + "/ev", VERIF_REPLAY_DIR=scratch + "/replays",
                        VERIF_GEN_DIR=scratch + "/gen", VERIF_TIER="quick")
             p = subprocess.run([sys.executable, os.path.join(VERIF, "check"), pid, "--tier", "quick"], env=env,
@@ -176,6 +175,16 @@ def strength_audit(pid):
                             "with_failing_input": any(not v.rstrip().endswith("no-failing-input-found") for v in vio)})
         finally:
             shutil.rmtree(scratch, ignore_errors=True)
+    return details[0]
+
+
+def strength_audit(pid, workers=1):
+    muts = _mutants(pid)
+    if workers > 1:
+        with concurrent.futures.ThreadPoolExecutor(max_workers=workers) as ex:
+            details = list(ex.map(lambda m: audit_one(pid, *m), muts))
+    else:
+        details = [audit_one(pid, *m) for m in muts]
     benign = [d for d in details if "benign" in d.get("origin", "")]
     applicable = [d for d in details if d.get("detected") is not None and d not in benign]
     return {"mutants": len(applicable), "detected": len([d for d in applicable if d["detected"]]),
